@@ -6,6 +6,7 @@ import (
 	"errors"
 	"fmt"
 	"io"
+	"math"
 	"net/http"
 	"strconv"
 	"strings"
@@ -63,7 +64,8 @@ func LookupWellKnown(ctx context.Context, serverNameType spec.ServerName) (*Well
 	}
 
 	// Figure out when the cache expiry time of this well-known record is
-	cacheControlHeader := resp.Header.Get("Cache-Control")
+	// Several Cache-Control field lines are one comma separated list (RFC 9110 section 5.3).
+	cacheControlHeader := strings.Join(resp.Header.Values("Cache-Control"), ",")
 	expiresHeader := resp.Header.Get("Expires")
 
 	expiryTimestamp := int64(0)
@@ -92,7 +94,12 @@ func LookupWellKnown(ctx context.Context, serverNameType spec.ServerName) (*Well
 				age, err := strconv.ParseInt(stringValue, 10, 64)
 
 				if err == nil {
-					expiryTimestamp = age + time.Now().Unix()
+					// Saturate rather than overflow (RFC 9111 section 1.2.2).
+					if now := time.Now().Unix(); age > math.MaxInt64-now {
+						expiryTimestamp = math.MaxInt64
+					} else {
+						expiryTimestamp = age + now
+					}
 				}
 			}
 		}
